@@ -400,8 +400,16 @@ std::string CTConf::str() const {
     static const char* sl[] = {"aggressive", "moderate", "lazy"};
     return std::string(st[style]) + "," + sl[stale] + "," + std::to_string(maxSize);
 }
-void libInit(const CTConf* ct) {
+void libInit(const CTConf* ct0) {
     initializer_list* L = defaultInitializerList(nullptr);
+    CTConf envconf;
+    const CTConf* ct = ct0;
+    if (!ct) if (const char* e = getenv("MDH_CT_CONF")) {
+        int a = 0, b = 1; long c = 0;
+        sscanf(e, "%d,%d,%ld", &a, &b, &c);
+        envconf.style = a; envconf.stale = b; envconf.maxSize = c;
+        ct = &envconf;
+    }
     if (ct) {
         switch (ct->style) {
             case 0: ct_initializer::setBuiltinStyle(ct_initializer::MonolithicChainedHash); break;
